@@ -58,6 +58,16 @@ def exec_INF(t):
     if i != '-':
         kw['n_int'] = int(i)
     carrier = mkvals(vs)          # (built outside the try: an error of the harness must never pass for one of the library)
+    if sg != 'n' and not (sg == 'u' and any(v < 0 for v in vs)) and (len(vs) * 3 + sum(int(v * 32) % 1009 for v in vs)) % 4 == 0:
+        # (content-determined) the values arrive inside another fixed-point object that holds them exactly in a roomier format, with
+        # spare fraction bits: what is inferred is the smallest format for the values, not the format of the object that carried them
+        fs = max([v.denominator.bit_length() - 1 for v in vs]) + 1 + (len(vs) % 3) * 5
+        ws = max([abs(int(v * 2 ** fs)).bit_length() for v in vs]) + 2 + (len(vs) % 2) * 9
+        if ws <= 62:
+            pv = [int(v) if v.denominator == 1 else to_float(v) for v in vs]
+            src = Fxp(pv[0] if len(pv) == 1 else pv, sg == 's', ws, fs)
+            assert [Fraction(c, 2 ** fs) for c in codes_of(src)] == list(vs) and not any(src.status[k] for k in ('overflow', 'underflow', 'inaccuracy')), 'source not exact'
+            carrier = src
     if (len(vs) + sum(int(v * 4) % 11 for v in vs)) % 5 == 0:
         # (content-determined) somewhere else in the program an object was just built from a template given by keyword: that is
         # that object's business, inference for the next object starts from nothing
